@@ -516,9 +516,21 @@ let exec (op : string) : unit =
                     | None -> ());
                    if !ok then
                    match String.split_on_char '/' tok with
-                   | [ san; half ] ->
+                   | [ san; half; score ] ->
                        (match apply_by_notation tbl rk bs !g (chars_of_string san) with
-                        | GOk (_, g') ->
+                        | GOk (mplayed, g') ->
+                            (* a searched move: the score shown must be the exact minimax value of the position
+                               and the move must attain it (C08 through the real loop) *)
+                            (if score <> "-" then
+                               match root_values tbl rk bs (nat_of_int (int_of_string d)) !g.gboard with
+                               | Ok ((_ :: _) as vs) ->
+                                   let vals = List.map (fun (_, v) -> int_of_z v) vs in
+                                   let best = if !g.gboard.turn = White then List.fold_left max min_int vals else List.fold_left min max_int vals in
+                                   let own = List.filter (fun (m, _) -> mv_text m = mv_text mplayed) vs in
+                                   if string_of_int best <> score || not (List.exists (fun (_, v) -> int_of_z v = best) own) then
+                                     spec_fail (Printf.sprintf "C08 watch: move %d (%s) shown with score %s; the exact depth-%s minimax value is %d and the move's own value is %s in [%s]"
+                                                  (k + 1) san score d best (match own with (_, v) :: _ -> string_of_int (int_of_z v) | [] -> "?") (snap_of !g.gboard))
+                               | _ -> ());
                             let g'' = { g' with gboard = toggle_turn g'.gboard } in
                             (match halfmove g''.gboard with
                              | Ok h when int_of_n h = int_of_string half -> ()
